@@ -32,6 +32,17 @@ EXCEPTIONS = [
     "fatal alert / Read error, an authenticated fatal alert or close_notify closes",
 ]
 
+# ON RECORD, deliberately NOT monitored (observation, 2026-09-26): every unprotected (epoch 0) record that DECODES -
+# an alert, a handshake fragment, a change_cipher_spec - has its record sequence number committed to the epoch-0
+# anti-replay window (markPacketAsValid in handleRecordContent / bufferHandshakeRecord).  One such datagram
+# carrying a FAR-FUTURE record number, e.g. the warning alert 15fefd0000 000000300003 0002 0129 during a handshake,
+# slides the window past everything the genuine peer will send at epoch 0: its later handshake records are
+# rejected as too old and the handshake in progress never completes.  This gives an unauthenticated sender
+# nothing beyond exceptions X1/X2 (a forged fatal alert or forged flight content ends an unauthenticated
+# handshake anyway), so the `warn` generator keeps its record numbers just ahead of the genuine sender's, inside
+# the window (28..43), and no monitor is attached.  Established connections are not affected (epoch >= 1 windows
+# only move on authenticated records: C05_forged_keeps_window, generator `forged`).
+
 SHARDS = 6
 
 
